@@ -69,8 +69,10 @@ func init() {
 			return nil
 		},
 		Phases: []fw.Phase{
-			{Name: "trie-H1-minus", Space: fmt.Sprintf("(H1 \\ {<,=})^<=5 quick / <=6 thorough, %d symbols", len(h1)), Share: 3,
-				Run: func(w *fw.W) { w.Trie(h1, 0, w.Pick(5, 6)) }, Eval: evalC15},
+			{Name: "trie-H1-minus", Space: fmt.Sprintf("(H1 \\ {<,=})^<=4 quick / <=5 thorough, %d symbols", len(h1)), Share: 3,
+				Run: func(w *fw.W) { w.Trie(h1, 0, w.Pick(4, 5)) }, Eval: evalC15},
+			{Name: "trie-H1core-minus-deep", Space: "(H1core minus '<','=')^5..6 (quick) / ..7 (thorough)", Share: 3,
+				Run: func(w *fw.W) { w.Trie(without(alpha.H1core, "<="), 5, w.Pick(6, 7)) }, Eval: evalC15},
 			{Name: "trie-fragments-minus", Space: fmt.Sprintf("fragment alphabet of %d symbols ^<=4 quick / <=5 thorough", len(c15Frag)), Share: 3,
 				Run: func(w *fw.W) { w.Trie(c15Frag, 1, w.Pick(4, 5)) }, Eval: evalC15},
 			{Name: "long-repetitions", Space: "unit^k to 200 000 bytes for every unit over (H1 minus '<','=')^<=2 x tails {back-tick, xml, [if, import, entity, javascript:}: token caps / size-dependent paths", Share: 2,
